@@ -4,6 +4,7 @@
 //	filechild store  <dir> <name> <payload-file> [fsize]   -> prints "STORE ok" or "STORE error: ..."
 //	filechild verify <dir> <name> <payload-file>           -> load, store, load; prints LOAD1/STORE2/LOAD2 lines
 //	filechild load   <dir> <name>                          -> prints "LOAD ok <hex>" or "LOAD error: ..."
+//	filechild storeload <dir> <name> <payload-file>        -> store then load; prints STOREB / LOADB lines
 //
 // Results go to stdout (a pipe). The main goroutine is locked to the main OS thread so that
 // strace's per-thread "when=" counters address the storage syscalls deterministically.
@@ -59,6 +60,28 @@ func main() {
 			fmt.Println("LOAD error:", err)
 		} else {
 			fmt.Println("LOAD ok", hex.EncodeToString(b))
+		}
+	case "storeload":
+		// a second writer of the same node, followed by its own read-back
+		payload, err := os.ReadFile(os.Args[4])
+		if err != nil {
+			fmt.Println("HARNESS error:", err)
+			os.Exit(2)
+		}
+		err = p.Store(ctx, name, payload)
+		if err != nil {
+			fmt.Println("STOREB error:", err)
+		} else {
+			fmt.Println("STOREB ok")
+		}
+		b, err := p.Load(ctx, name)
+		switch {
+		case err != nil:
+			fmt.Println("LOADB error:", err)
+		case bytes.Equal(b, payload):
+			fmt.Println("LOADB complete", len(b))
+		default:
+			fmt.Println("LOADB WRONG", len(b), "of", len(payload))
 		}
 	case "verify":
 		payload, err := os.ReadFile(os.Args[4])
